@@ -52,8 +52,13 @@ Clauses(e) ==
               J!CanonTree(e.ctree) = J!CanonTree(C!ToJson(TermOf(e.term)))>>
        >>
 
+\* C12, history independence: from_json_data on a document written by ANOTHER process gives the same outcome (same
+\* data or same exception type) as the first thing a fresh process does and after that process has pushed every
+\* term and shape through to_json_data / from_json_data / to_code (no hidden process-wide state)
+ColdWarm(e) == << <<"P12.history_independent", e.first = e.later>> >>
+
 Failing(e) ==
-    LET cs == Clauses(e)
+    LET cs == IF e.kind = "coldwarm" THEN ColdWarm(e) ELSE Clauses(e)
     IN SelectSeq([i \in DOMAIN cs |-> IF cs[i][2] THEN "" ELSE cs[i][1]], LAMBDA x: x # "")
 
 Init == l = 2
